@@ -76,6 +76,15 @@ def join(a, b):
     return r
 
 
+def path_key(e):
+    """access path of `x.attr` / `x[<constant>]` (x a plain name) as a key of the flow state, else None"""
+    if isinstance(e, ast.Attribute) and isinstance(e.value, ast.Name):
+        return "%s.%s" % (e.value.id, e.attr)
+    if isinstance(e, ast.Subscript) and isinstance(e.value, ast.Name) and isinstance(e.slice, ast.Constant) and isinstance(e.slice.value, int):
+        return "%s[%d]" % (e.value.id, e.slice.value)
+    return None
+
+
 def is_top(v):
     return v is None or "top" in v
 
@@ -543,6 +552,8 @@ class Typer:
     def _bind(self, func, ft, target, v, env):
         if isinstance(target, ast.Name):
             env[target.id] = v
+            for k in [k for k in env if isinstance(k, str) and (k.startswith(target.id + ".") or k.startswith(target.id + "["))]:
+                del env[k]
             self._rec(ft, target, v)
         elif isinstance(target, (ast.Tuple, ast.List)):
             n = len(target.elts)
@@ -576,6 +587,8 @@ class Typer:
             # attribute / subscript store: evaluate the receiver for typing
             if isinstance(target, ast.Attribute):
                 self.ev(func, ft, target.value, env)
+                for k in [k for k in env if isinstance(k, str) and k.endswith("." + target.attr)]:
+                    del env[k]  # an access-path refinement does not survive a store to that attribute
             elif isinstance(target, ast.Subscript):
                 self.ev(func, ft, target.value, env)
                 self.ev(func, ft, target.slice, env)
@@ -638,6 +651,37 @@ class Typer:
         if isinstance(cond, ast.Compare) and len(cond.ops) == 1:
             op = cond.ops[0]
             l, r = cond.left, cond.comparators[0]
+            # exact-type tests: `type(x) is str`, `type(x) in (list, tuple)` - on the true side x is an instance of exactly
+            # that builtin type, hence not a tree node (an isinstance() test proves nothing of the kind: a node class may
+            # derive from str/list/tuple)
+            tkey = None
+            if isinstance(l, ast.Call) and isinstance(l.func, ast.Name) and l.func.id == "type" and len(l.args) == 1:
+                a0 = l.args[0]
+                if isinstance(a0, ast.Name) and a0.id in st:
+                    tkey = a0.id
+                elif path_key(a0) is not None:
+                    tkey = path_key(a0)  # access path `self.node` (killed by a store to that attribute / a rebinding of the base)
+            if tkey is not None and isinstance(op, (ast.Is, ast.IsNot, ast.Eq, ast.NotEq, ast.In, ast.NotIn)):
+                if isinstance(op, (ast.In, ast.NotIn)):
+                    names = [x.id for x in r.elts] if isinstance(r, (ast.Tuple, ast.List, ast.Set)) and all(isinstance(x, ast.Name) for x in r.elts) else None
+                else:
+                    names = [r.id] if isinstance(r, ast.Name) else None
+                positive = outcome if isinstance(op, (ast.Is, ast.Eq, ast.In)) else not outcome
+                builtin = {"str": STR, "int": INT, "bool": BOOL, "list": seq(TOP), "tuple": seq(TOP), "dict": OTHER,
+                           "set": frozenset([("set", TOP)]), "frozenset": frozenset([("set", TOP)]), "float": OTHER, "bytes": OTHER}
+                if names and positive and all(n_ in builtin for n_ in names):
+                    nv = EMPTY
+                    for n_ in names:
+                        nv = join(nv, builtin[n_])
+                    cur = st.get(tkey, TOP)
+                    if not is_top(cur) and all(n_ in ("list", "tuple") for n_ in names):
+                        keep = frozenset(a for a in cur if isinstance(a, tuple) and a[0] in ("seq", "tup"))
+                        if keep:
+                            nv = keep
+                    env = dict(st)
+                    env[tkey] = nv
+                    return env
+                return st
             name = None
             if isinstance(l, ast.Name) and isinstance(r, ast.Constant) and r.value is None:
                 name = l.id
@@ -658,6 +702,16 @@ class Typer:
                     if not nv:
                         return None
                     env[name] = nv
+                return env
+            return st
+        if isinstance(cond, ast.Call) and isinstance(cond.func, ast.Name) and cond.func.id == "hasattr" and len(cond.args) == 2 \
+                and isinstance(cond.args[1], ast.Constant) and cond.args[1].value in T.READONLY_MEMBERS and not outcome:
+            # an object without one of the navigation attributes is not a tree node
+            a0 = cond.args[0]
+            key = a0.id if isinstance(a0, ast.Name) else path_key(a0)
+            if key is not None:
+                env = dict(st)
+                env[key] = TOP
                 return env
             return st
         if isinstance(cond, ast.Name) and cond.id in st:
@@ -705,11 +759,15 @@ class Typer:
             return self._global_name(func, e.id)
         if isinstance(e, ast.Attribute):
             recv = ev(e.value)
+            if path_key(e) in env:
+                return env[path_key(e)]  # refined by an exact-type test on this access path
             return self._attr(func, ft, e, recv)
         if isinstance(e, ast.Call):
             return self._call(func, ft, e, env, yields)
         if isinstance(e, ast.Subscript):
             recv = ev(e.value)
+            if path_key(e) in env:
+                return env[path_key(e)]
             if recv is not None and not is_top(recv) and "none" in recv and recv - NONE:
                 # the value of `x[i]` when it has one: None is not subscriptable (that failure is the None rules' subject)
                 recv = recv - NONE
